@@ -646,6 +646,8 @@ class Machine(object):
                                 break
                             e = e.parent
                             if e is None:
+                                if expr.name in KEYWORDS:
+                                    raise Unspecified("a syntactic keyword used as an expression")
                                 raise SchemeError("unbound variable " + expr.name)
                         if val is UNASSIGNED:
                             raise Unspecified("variable %s read before its initialisation" % expr.name)
